@@ -159,35 +159,40 @@ static inline int spec_ldexp_ok32(uint32_t r, uint32_t x, int32_t e) {
   double p = spec_u2d((uint64_t)(1023 + k) << 52);
   return r == spec_f2u((float)((double)spec_u2f(x) * p));
 }
-/* fmax / fmin: the larger / smaller operand; the other operand when exactly one is NaN; NaN when both are; either zero for +-0 */
+/* fmax / fmin: the larger / smaller operand; the other operand when exactly one is NaN; NaN when both are; either zero for +-0.
+ * A SIGNALLING NaN operand is outside what <cmath> defines (C11 F.2.1: "does not define the behavior of signaling NaNs";
+ * IEEE 754-2008 maxNum and glibc >= 2.25 return a quiet NaN, VRANGEPS does the same): for an sNaN operand either answer --
+ * the other operand or a NaN -- satisfies the contract. */
+#define SPEC_SNAN32(u) (spec_isnan32(u) && !((u) & 0x00400000u))
+#define SPEC_SNAN64(u) (spec_isnan64(u) && !((u) & 0x0008000000000000ull))
 static inline int spec_fmax_ok32(uint32_t r, uint32_t a, uint32_t b) {
   if (spec_isnan32(a) && spec_isnan32(b)) return spec_isnan32(r);
-  if (spec_isnan32(a)) return r == b;
-  if (spec_isnan32(b)) return r == a;
+  if (spec_isnan32(a)) return r == b || (SPEC_SNAN32(a) && spec_isnan32(r));
+  if (spec_isnan32(b)) return r == a || (SPEC_SNAN32(b) && spec_isnan32(r));
   float fa = spec_u2f(a), fb = spec_u2f(b);
   if (fa == fb) return r == a || r == b;
   return r == (fa > fb ? a : b);
 }
 static inline int spec_fmin_ok32(uint32_t r, uint32_t a, uint32_t b) {
   if (spec_isnan32(a) && spec_isnan32(b)) return spec_isnan32(r);
-  if (spec_isnan32(a)) return r == b;
-  if (spec_isnan32(b)) return r == a;
+  if (spec_isnan32(a)) return r == b || (SPEC_SNAN32(a) && spec_isnan32(r));
+  if (spec_isnan32(b)) return r == a || (SPEC_SNAN32(b) && spec_isnan32(r));
   float fa = spec_u2f(a), fb = spec_u2f(b);
   if (fa == fb) return r == a || r == b;
   return r == (fa < fb ? a : b);
 }
 static inline int spec_fmax_ok64(uint64_t r, uint64_t a, uint64_t b) {
   if (spec_isnan64(a) && spec_isnan64(b)) return spec_isnan64(r);
-  if (spec_isnan64(a)) return r == b;
-  if (spec_isnan64(b)) return r == a;
+  if (spec_isnan64(a)) return r == b || (SPEC_SNAN64(a) && spec_isnan64(r));
+  if (spec_isnan64(b)) return r == a || (SPEC_SNAN64(b) && spec_isnan64(r));
   double fa = spec_u2d(a), fb = spec_u2d(b);
   if (fa == fb) return r == a || r == b;
   return r == (fa > fb ? a : b);
 }
 static inline int spec_fmin_ok64(uint64_t r, uint64_t a, uint64_t b) {
   if (spec_isnan64(a) && spec_isnan64(b)) return spec_isnan64(r);
-  if (spec_isnan64(a)) return r == b;
-  if (spec_isnan64(b)) return r == a;
+  if (spec_isnan64(a)) return r == b || (SPEC_SNAN64(a) && spec_isnan64(r));
+  if (spec_isnan64(b)) return r == a || (SPEC_SNAN64(b) && spec_isnan64(r));
   double fa = spec_u2d(a), fb = spec_u2d(b);
   if (fa == fb) return r == a || r == b;
   return r == (fa < fb ? a : b);
